@@ -175,6 +175,24 @@ def impl_run(case):
             res["snapshot_failed_at"] = i
             break
     res["snapshots_ok"] = ok
+    # instances that were NOT given a seed (entropy-seeded, or re-seeded with None) are just as independent:
+    # another unseeded instance - or the module's default generator - drawing in between disturbs neither
+    # the state nor a snapshot/replay
+    u1, u2 = mk(None), mk(None)
+    u3 = mk(31337)
+    u3.seed(None)
+    others = [u2, u3] + ([rng.RNG] if case["impl"] == "numpy" else [])
+    st = u1.getstate()
+    for i, o in enumerate(case["other_ops"] * 2):
+        _do(others[i % len(others)], o)
+    same_state = repr(u1.getstate()) == repr(st)
+    cont = [_do(u1, o) for o in ops]
+    u1.setstate(st)
+    replay = []
+    for i, o in enumerate(ops):
+        replay.append(_do(u1, o))
+        _do(others[i % len(others)], case["other_ops"][i % len(case["other_ops"])])
+    res["unseeded_independent"] = same_state and replay == cont
     return res
 
 
@@ -216,7 +234,7 @@ def agree(case, r, o):
             elif "v" not in b or not (0 <= b["v"] < 2 ** b["k"]):
                 return False
         return r["randbytes_ok"] and r["random_ok"]
-    return all(r.get(x, True) for x in ("twins_equal", "reseed_equal", "independent", "snapshots_ok"))
+    return all(r.get(x, True) for x in ("twins_equal", "reseed_equal", "independent", "snapshots_ok", "unseeded_independent"))
 
 
 def nontrivial(case, r):
